@@ -819,6 +819,12 @@ func c12Copy(p *Program, r *Report, m *envModel, fns []*ssa.Function) {
 				}
 				if _, isT := m.tables[fa.Field]; isT && isFresh(fa.X) {
 					_, isMake := st.Val.(*ssa.MakeMap)
+					if c, ok := st.Val.(*ssa.Call); ok && !isMake {
+						// a map made by a helper of the package that returns nothing but maps it made itself (or nil)
+						if callee := staticCallee(c); callee != nil && callee.Pkg == fn.Pkg && returnsFreshMap(callee) {
+							isMake = true
+						}
+					}
 					r.Check(isMake, "C12.R5", fname+"|fresh-table "+m.tables[fa.Field], site, "new scope gets a map made here", "a new scope is given another scope's table: later changes on either side are visible to the other")
 				}
 			}
